@@ -111,7 +111,7 @@ func DrawConfig(seed uint64, prof *Profile) Config {
 	n := &c.Node
 	n.BlockReward = []int64{0, 50, 1000, 6_250_000, 1_000_000_000}[r.Pick([]float64{0.5, 3, 4, 2, 0.5})]
 	n.Baseline = []int64{0, 2_000, 50_000, 10_000_000}[r.Pick([]float64{1, 3, 3, 2})]
-	n.APY = []string{"0.5", "0.05", "2", "0"}[r.Pick([]float64{4, 2, 2, 0.3})]
+	n.APY = []string{"0.5", "0.05", "2", "0", "-0.5"}[r.Pick([]float64{4, 2, 2, 0.3, 0.25})]
 	n.HalvingPeriod = int64(r.Range(11, 400))
 	if r.Chance(0.2) {
 		n.HalvingPeriod = 32_000_000
